@@ -139,13 +139,22 @@ class World:
         if status in (204, 304) or head.startswith(b"HEAD "):
             # no body on the wire whatever the framing headers say (RFC 9112 6.3): the next response follows immediately
             op["_expect_body"] = b""
-            framing_hdr = {"cl": f"Content-Length: {len(body)}\r\n", "chunked": "Transfer-Encoding: chunked\r\n", "eof": ""}[fr]
+            framing_hdr = {"cl": f"Content-Length: {len(body)}\r\n", "chunked": "Transfer-Encoding: chunked\r\n", "chunked1": "Transfer-Encoding: chunked\r\n", "eof": ""}[fr]
             if status == 204:
                 framing_hdr = "" if fr != "cl" else framing_hdr
             data = (hdr + framing_hdr + "\r\n").encode()
             fr = "none"
         elif fr == "cl":
             data = (hdr + f"Content-Length: {len(body)}\r\n\r\n").encode() + body
+        elif fr == "chunked1":
+            # nchunks small chunks in one segment: few bytes, many chunk boundaries (the reader pauses on their number too)
+            data = (hdr + "Transfer-Encoding: chunked\r\n\r\n").encode()
+            nch = max(1, min(ps.get("nchunks", 5), len(body)))
+            step = len(body) // nch
+            for k in range(nch):
+                part = body[k * step:(k + 1) * step] if k < nch - 1 else body[k * step:]
+                data += f"{len(part):x}\r\n".encode() + part + b"\r\n"
+            data += b"0\r\n\r\n"
         elif fr == "chunked":
             half = len(body) // 2
             data = (hdr + "Transfer-Encoding: chunked\r\n\r\n").encode()
@@ -254,7 +263,33 @@ def execute(case: dict) -> dict:
 
         async def main():
             conn = Conn(pf, log=world.log, limit=case.get("limit", 100), keepalive_timeout=15.0)
-            session = aiohttp.ClientSession(connector=conn, timeout=aiohttp.ClientTimeout(total=50))
+            skw = {"read_bufsize": case["read_bufsize"]} if case.get("read_bufsize") else {}
+            # a read timeout that no scripted peer ever exceeds (they answer at once, interim responses lag 0.5 s at most)
+            session = aiohttp.ClientSession(connector=conn, timeout=aiohttp.ClientTimeout(total=50, sock_read=case.get("sock_read")), **skw)
+            deferred: list = []
+
+            async def read_deferred():
+                # bodies the application left unread while it went on with other requests: read now, each must
+                # still be its own (the connection may have served others meanwhile)
+                for dres, dresp in deferred:
+                    try:
+                        dres["body"] = await dresp.read()
+                    except Exception as e:  # noqa: BLE001
+                        dres["read_error"] = type(e).__name__
+                        dres["read_timeout"] = isinstance(e, asyncio.TimeoutError)
+                    dresp.release()
+                deferred.clear()
+                await arrived()
+
+            async def arrived():
+                # everything the peers have written must have ARRIVED before the next request is issued: bytes still in
+                # flight at hand-off time cannot be told from an answer by any client
+                for p in world.peers:
+                    while p.transport is not None and p.transport.out and not p.transport.peer.closed and not p.transport.peer.reading_paused:
+                        await asyncio.sleep(0)
+                for _ in range(3):
+                    await asyncio.sleep(0)
+
             try:
                 n = 0
                 seen_keys: dict = {}
@@ -262,6 +297,8 @@ def execute(case: dict) -> dict:
                     kind = op["op"]
                     if kind == "tick":
                         await asyncio.sleep(op["dt"])
+                        if op["dt"] >= 1.0:
+                            await read_deferred()
                         continue
                     if kind == "unsolicited":
                         idle = [p for p in world.peers if p.transport is not None and not p.transport.closing and not p.busy]
@@ -273,7 +310,7 @@ def execute(case: dict) -> dict:
                         stats["misbehaviour"] += 1
                         # the bytes must have ARRIVED before the next request is issued: bytes still in flight at
                         # hand-off time cannot be told from an answer by any client
-                        while p.transport.out and not p.transport.peer.closed:
+                        while p.transport.out and not p.transport.peer.closed and not p.transport.peer.reading_paused:
                             await asyncio.sleep(0)
                         for _ in range(op.get("settle", 3)):
                             await asyncio.sleep(0)
@@ -315,7 +352,9 @@ def execute(case: dict) -> dict:
                         res["status"] = resp.status
                         res["xch"] = resp.headers.get("X-Exchange")
                         try:
-                            if op["read"] == "full":
+                            if op["read"] == "deferred":
+                                deferred.append((res, resp))
+                            elif op["read"] == "full":
                                 res["body"] = await resp.read()
                             elif op["read"] == "partial":
                                 res["body_prefix"] = await resp.content.read(5)
@@ -329,18 +368,22 @@ def execute(case: dict) -> dict:
                                 res["body"] = bytes(got)
                         except Exception as e:  # noqa: BLE001
                             res["read_error"] = type(e).__name__
-                        if op.get("end", "release") == "close":
+                            res["read_timeout"] = isinstance(e, asyncio.TimeoutError)
+                        if op["read"] == "deferred":
+                            pass
+                        elif op.get("end", "release") == "close":
                             resp.close()
                         else:
                             resp.release()
-                        if op["read"] not in ("full", "stream") or "read_error" in res:
+                        if op["read"] not in ("full", "stream", "deferred") or "read_error" in res:
                             # the application abandoned the exchange before the whole response had arrived:
                             # that connection is done for (if everything had arrived already it is clean)
                             for p in world.peers:
                                 if p.requests and p.requests[-1] == n and p.transport is not None and p.transport.out:
                                     p.tainted = p.tainted or f"response r{n} abandoned by the application before it had fully arrived"
                     except (aiohttp.ClientError, asyncio.TimeoutError) as e:
-                        res["error"] = type(e).__name__
+                        res["error"] = "TimeoutError" if isinstance(e, asyncio.TimeoutError) else type(e).__name__
+                        res["error_type"] = type(e).__name__
                         for p in world.peers:
                             if p.requests and p.requests[-1] == n:
                                 p.tainted = p.tainted or f"exchange r{n} failed with {type(e).__name__}"
@@ -348,7 +391,10 @@ def execute(case: dict) -> dict:
                     # connection was released: such a connection must not even go back into the pool
                     if "error" not in res and op["peer"].get("surplus") and op["peer"].get("surplus_when") == "same" and not case.get("s2c") \
                             and op["read"] == "full":
-                        pooled = {id(pr.transport) for q in getattr(conn, "_conns", {}).values() for pr, _t in q}
+                        # (a pooled connection whose transport is already closed is never handed out, and one whose protocol
+                        # reports should_close is refused at hand-over - the response may have completed, and released the
+                        # connection, inside the parser call that then found the surplus: both are harmless)
+                        pooled = {id(pr.transport) for q in getattr(conn, "_conns", {}).values() for pr, _t in q if pr.is_connected() and not pr.should_close}
                         for p in world.peers:
                             if p.requests and p.requests[-1] == n and p.transport is not None and id(p.transport.peer) in pooled:
                                 raise Violation("tainted-connection-pooled", f"connection {p.idx} went back into the pool although surplus bytes followed response r{n} in the same segment")
@@ -363,7 +409,7 @@ def execute(case: dict) -> dict:
                         for _ in range(op["peer"].get("later_ms", 1)):
                             await asyncio.sleep(0)
                         fn()
-                        while lp.transport is not None and lp.transport.out and not lp.transport.peer.closed:
+                        while lp.transport is not None and lp.transport.out and not lp.transport.peer.closed and not lp.transport.peer.reading_paused:
                             await asyncio.sleep(0)
                     # everything the peers have written must have arrived before the next request is issued
                     for p in world.peers:
@@ -371,6 +417,7 @@ def execute(case: dict) -> dict:
                             await asyncio.sleep(0)
                     for _ in range(op.get("settle", 2)):
                         await asyncio.sleep(0)
+                await read_deferred()
             finally:
                 await session.close()
 
@@ -383,7 +430,9 @@ def execute(case: dict) -> dict:
             n = res["n"]
             if res.get("error") == "TimeoutError":
                 # every scripted response is complete (or its connection is closed by the peer): nothing here takes 50 s
-                raise Violation("exchange-hangs", f"request r{n} timed out although the peer answered (or closed): {op}")
+                raise Violation("exchange-hangs", f"request r{n} timed out ({res.get('error_type')}) although the peer answered (or closed) at once: {op}")
+            if res.get("read_timeout") and not op["peer"].get("bad_coding") and op["peer"].get("truncate") is None:
+                raise Violation("exchange-hangs", f"reading the body of r{n} timed out ({res.get('read_error')}) although the peer sent (or closed) at once: {op}")
             if "error" in res:
                 continue
             want_status = 101 if op["peer"].get("upgrade_hdrs") == "101-h2c" else op["peer"].get("status", 200)
@@ -446,18 +495,19 @@ def cases(draw, narrow: bool):
         "h": st.integers(0, nhosts - 1), "p": st.integers(0, 0 if narrow else 1), "tls": st.booleans() if not narrow else st.just(False),
         "proxy": st.sampled_from([0, 0, 0, 1, 2, 3]) if not narrow else st.just(0),
         "tlscfg": st.sampled_from([0, 0, 0, 1, 2, 3, 4, 5, 6, 7]) if not narrow else st.just(0),
-        "read": st.sampled_from(["full", "full", "full", "stream", "stream", "partial", "none"]),
+        "read": st.sampled_from(["full", "full", "full", "stream", "stream", "partial", "none", "deferred"]),
         "end": st.sampled_from(["release", "release", "close"]),
         "settle": st.integers(0, 4),
         "expect": st.sampled_from([False, False, False, False, True]),
         "head": st.sampled_from([False, False, False, False, True]),
         "peer": st.fixed_dictionaries({
-            "framing": st.sampled_from(["cl", "cl", "chunked", "eof"]),
+            "framing": st.sampled_from(["cl", "cl", "chunked", "chunked1", "eof"]),
             "status": st.sampled_from([200, 200, 200, 204, 304]),
             "announce_close": st.sampled_from([None, None, None, None, "header", "http10"]),
             "bad_coding": st.sampled_from([False, False, False, False, True]),
             "rest_when": st.sampled_from(["after", "next"]),
-            "size": st.sampled_from([0, 1, 10, 300]),
+            "size": st.sampled_from([0, 1, 5, 10, 300]),
+            "nchunks": st.sampled_from([3, 4, 5, 5, 6, 9, 17]),
             "surplus": st.sampled_from([None, None, "garbage", "response", "two_responses", "partial"]),
             "surplus_when": st.sampled_from(["same", "later"]),
             "later_ms": st.integers(0, 3),
@@ -499,7 +549,7 @@ def cases(draw, narrow: bool):
                 ps["truncate"] = None  # a shortened EOF-delimited body cannot be told from a complete one
             if o.get("expect"):
                 o["head"] = False
-            if ps["framing"] == "chunked" and ps.get("announce_close") == "http10":
+            if ps["framing"] in ("chunked", "chunked1") and ps.get("announce_close") == "http10":
                 ps["announce_close"] = None  # no chunked coding in HTTP/1.0
             if ps.get("upgrade_hdrs") == "101-h2c":
                 for k_ in ("surplus", "truncate", "interim"):
@@ -529,7 +579,8 @@ def cases(draw, narrow: bool):
                 ps["truncate"] = None  # nothing to truncate: these responses end with the header block
                 if ps["framing"] == "eof":
                     ps["framing"] = "cl"
-    return {"ops": ops, "s2c": draw(st.sampled_from([[], [], [1], [7, 3]]))}
+    return {"ops": ops, "s2c": draw(st.sampled_from([[], [], [1], [7, 3]])), "read_bufsize": draw(st.sampled_from([None, None, 64, 16])),
+            "sock_read": draw(st.sampled_from([None, None, 2.0]))}
 
 
 def unit_hyp(rec: Rec, n: int, offset: int, narrow) -> None:
